@@ -180,7 +180,10 @@ def do_basename(it, p):
 
 
 def fs_event(it, op, *args):
+    """one filesystem mutation: ("fs", op, args) for the clauses of this module, and the same call as a
+    generic boundary event so that Contract.effects / bcalls() see it as well"""
     it.ctx.event("fs", op, list(args))
+    it.ctx.event("bcall", "fs", op, list(args), {})
 
 
 def may_fail(it, label, exc="OSError"):
@@ -367,6 +370,10 @@ def install_spec(reg):
     sf["abspath"] = lambda it, p: do_abspath(it, sview(p))
     sf["basename"] = lambda it, p: do_basename(it, sview(p))
     sf["good_name"] = lambda it, b: VBool(z_good(sview(b).z))
+    # pure connectives (no path forking, both sides always evaluated): for clauses whose consequent needs no guard
+    sf["imp"] = lambda it, a, b: VBool(z3.Implies(it.truth(a), it.truth(b)))
+    sf["falsy"] = lambda it, a: VBool(z3.Not(it.truth(a)))
+    sf["truthy"] = lambda it, a: VBool(it.truth(a))
     sf["is_jstr"] = lambda it, x: VBool(J.is_jstr(x.z)) if isinstance(x, VJson) else VBool(isinstance(x, VStr))
     sf["jstr"] = lambda it, x: sview(x)
     sf["within"] = lambda it, p, d: VBool(z_within(sview(p).z, sview(d).z))
@@ -423,127 +430,247 @@ def install_spec(reg):
 
     sf["fs_confined"] = fs_confined
 
+    def fs_only(it, *ops):
+        ops = {it.concrete(o) for o in ops}
+        return VBool(all(op in ops for op, _ in evs(it)))
+
+    sf["fs_only"] = fs_only
+
+    def iter_fs_only(it, *ops):
+        """the filesystem events of the current loop iteration (all of them outside a loop body) are of these kinds"""
+        ops = {it.concrete(o) for o in ops}
+        tr = it.ctx.trace
+        start = max([i for i, e in enumerate(tr) if e[0] == "loop-body-start"] + [len(tr)])
+        return VBool(all(e[1][0] in ops for e in tr[start:] if e[0] == "fs"))
+
+    sf["iter_fs_only"] = iter_fs_only
+
 
 # ------------------------------------------------------------------ contracts
 B = "basename(jstr(destname))"
 OUT = "abspath(pjoin(self.args.cwd, self.args.output_file))"
+NO_OUT, HAS_OUT = "falsy(self.args.output_file)", "truthy(self.args.output_file)"
 CWD_OK = ["abspath(self.args.cwd) in self._fs.isdir", "fs_wellformed_at(self._fs, abspath(self.args.cwd))"]
 CWD_NOTE = "precondition: the working directory exists (and, POSIX, so does its lexical parent)"
 SELF = {"args": "obj[Args]", "_fs": "obj[GhostFS]"}
 SELF_D = dict(SELF, abs_destname="str")
-NAME_NEEDED = f"(not self.args.output_file or ({OUT} in self._fs.isdir))"
+NAME_NEEDED = f"({NO_OUT} or ({OUT} in self._fs.isdir))"
+FS_MOD = [("self", "_fs", "exists"), ("self", "_fs", "isfile"), ("self", "_fs", "isdir")]
+FS_FIELDS = ["_fs.exists", "_fs.isfile", "_fs.isdir"]
+# the announced destination computed in the pre-state (used in raise conditions only)
+DEST0 = (f"ite({HAS_OUT}, ite({OUT} in self._fs.isdir, abspath(pjoin(self.args.cwd, self.args.output_file, {B})), {OUT}), "
+         f"abspath(pjoin(self.args.cwd, {B})))")
+FNAME = "jfield(them_d, 'file', 'filename')"
+DNAME = "jfield(them_d, 'directory', 'dirname')"
+TARGET = "abspath(pjoin(extract_dir, info.filename))"
+DEST_NORMAL = ("abspath(self.abs_destname) == self.abs_destname and self.abs_destname.startswith('/') "
+               "and not self.abs_destname.endswith('/')")
+OFFER_EXC = ["KeyError", "TypeError", "IndexError", "AttributeError", "ValueError"]
+ENV_EXC = ["OSError", "EOFError"]
 
 
-def announced(name):
-    """the destination the statement promises, as three clauses over the decided path `result`-like expression"""
-    b = f"basename(jstr({name}))"
-    return b
-
-
-def dest_clauses(dest, name, old_isdir, strict):
-    """the statement's three cases for the decided destination `dest` given the offered name `name`.
+def dest_clauses(dest, name, strict):
+    """the statement's three cases for the decided destination `dest`, given the offered name `name`.
     strict=False is _decide_destname on its own: with --output-file naming an existing directory and a
-    dot name, it returns that directory (or its parent) when it does not delete - an *existing directory*,
-    which the callers then refuse to touch (proved there: strict=True)."""
+    dot name ('', '.', '..') it returns that directory (or its parent) when it does not delete - an
+    *existing directory*, which _handle_file/_handle_directory then refuse to touch (proved there: strict=True)."""
     b = f"basename(jstr({name}))"
+    old_isdir = "old(self._fs.isdir)"
     dir_case = f"good_name({b}) and {dest} == pjoin({OUT}, {b})"
     if not strict:
         dir_case = (f"ite(good_name({b}), {dest} == pjoin({OUT}, {b}), "
                     f"({dest} in {old_isdir}) and not self.args.accept_file)")
     return [
         ("no-output-file--direct-child-of-cwd-named-by-the-offers-basename",
-         f"implies(not self.args.output_file, good_name({b}) and {dest} == pjoin(abspath(self.args.cwd), {b}))"),
+         f"imp({NO_OUT}, good_name({b}) and {dest} == pjoin(abspath(self.args.cwd), {b}))"),
         ("output-file-not-an-existing-directory--exactly-that-path",
-         f"implies(self.args.output_file and not ({OUT} in {old_isdir}), {dest} == {OUT})"),
+         f"imp({HAS_OUT} and not ({OUT} in {old_isdir}), {dest} == {OUT})"),
         ("output-file-is-an-existing-directory--direct-child-named-by-the-offers-basename",
-         f"implies(self.args.output_file and ({OUT} in {old_isdir}), {dir_case})"),
+         f"imp({HAS_OUT} and ({OUT} in {old_isdir}), {dir_case})"),
+        ("no-output-file--destination-did-not-exist", f"imp({NO_OUT}, not ({dest} in old(self._fs.exists)))"),
     ]
 
 
-REMOVE_RULE = lambda dest: (   # noqa: E731
-    "removes-at-most-the-destination-and-only-a-file-that-output-file-names",
-    f"n_fs('remove') <= 1 and implies(n_fs('remove') == 1, fs_arg('remove', 0, 0) == {dest} and "
-    f"({dest} in old(self._fs.isfile)) and not ({dest} in old(self._fs.isdir)) and self.args.output_file)")
+def remove_rule(dest):
+    return ("removes-at-most-the-destination-and-only-a-file-that-output-file-names",
+            f"n_fs('remove') <= 1 and implies(n_fs('remove') == 1, fs_arg('remove', 0, 0) == {dest} and "
+            f"({dest} in old(self._fs.isfile)) and not ({dest} in old(self._fs.isdir)) and {HAS_OUT})")
 
-OFFER_EXC = ["KeyError", "TypeError", "IndexError", "AttributeError", "ValueError"]
-ENV_EXC = ["OSError", "EOFError"]
+
+def raise_rule(name):
+    """on every exceptional exit: nothing was opened/renamed/extracted; at most the announced file was removed"""
+    b = f"basename(jstr({name}))"
+    return ("nothing-written--at-most-the-announced-file-removed",
+            "n_fs() == n_fs('remove') and n_fs('remove') <= 1 and implies(n_fs('remove') == 1, "
+            f"fs_arg('remove', 0, 0) == self.abs_destname and (self.abs_destname in old(self._fs.isfile)) and {HAS_OUT} "
+            f"and (self.abs_destname == {OUT} or (good_name({b}) and self.abs_destname == pjoin({OUT}, {b}))))")
 
 
 def on_any_raise(excs, clauses):
     return {e: list(clauses) for e in excs}
 
 
+def for_r(x):
+    """a clause about `self` restated for the harness parameter `r`"""
+    if isinstance(x, tuple):
+        return (x[0], for_r(x[1]))
+    return x.replace("self.", "r.")
+
+
+HF_EXC = OFFER_EXC + ENV_EXC + ["TransferRejectedError"]
+HD_EXC = HF_EXC + ["RespondError"]
+
+# `ensures` are about values and the ghost filesystem (visible to callers); `internal_ensures` are about the
+# ghost event trace of the call itself (checked on the callee side only)
 CONTRACTS = [
     # ---------------------------------------------------------------- D1-D3
     Contract(f"{RECV}:Receiver._decide_destname", props=[PROP], params={"mode": "str", "destname": "json"},
-             self_fields=SELF, requires=CWD_OK, pre_hook=bind_fs,
+             self_fields=SELF, requires=CWD_OK, pre_hook=bind_fs, modifies=FS_FIELDS, returns="str",
              raises_exactly={
                  "TypeError": f"not is_jstr(destname) and {NAME_NEEDED}",
                  # D2 (+ an existing directory is never replaced)
-                 "TransferRejectedError": f"(is_jstr(destname) or not {NAME_NEEDED}) and (DEST0 in self._fs.exists) and "
-                                          "(not self.args.output_file or (self.args.accept_file and (DEST0 in self._fs.isdir)))"},
-             raises={"OSError": "self.args.output_file and self.args.accept_file and (DEST0 in self._fs.isfile)"},
-             ensures=dest_clauses("result", "destname", "old(self._fs.isdir)", strict=False) + [
-                 ("no-output-file--destination-did-not-exist",
-                  "implies(not self.args.output_file, not (result in old(self._fs.exists)))"),
-                 REMOVE_RULE("result"),
-                 ("remove-only-with-accept-file", "implies(n_fs('remove') == 1, self.args.accept_file)"),
-                 ("nothing-else-touched", "n_fs() == n_fs('remove')"),
+                 "TransferRejectedError": f"(is_jstr(destname) or not {NAME_NEEDED}) and ({DEST0} in self._fs.exists) and "
+                                          f"({NO_OUT} or (self.args.accept_file and ({DEST0} in self._fs.isdir)))"},
+             raises={"OSError": f"{HAS_OUT} and self.args.accept_file and ({DEST0} in self._fs.isfile)"},
+             ensures=dest_clauses("result", "destname", strict=False) + [
                  ("with-accept-file-the-destination-is-now-free-of-files-and-directories",
-                  "implies(self.args.accept_file, not (result in self._fs.isfile) and not (result in self._fs.isdir))"),
+                  "imp(self.args.accept_file, not (result in self._fs.isfile) and not (result in self._fs.isdir))"),
                  ("absolute-normalised", "abspath(result) == result and result.startswith('/')"),
                  ("directories-untouched", "self._fs.isdir == old(self._fs.isdir)")],
+             internal_ensures=[
+                 remove_rule("result"),
+                 ("remove-only-with-accept-file", "implies(n_fs('remove') == 1, self.args.accept_file)"),
+                 ("nothing-else-touched", "n_fs() == n_fs('remove')")],
              ensures_raise={"TransferRejectedError": [("nothing-touched", "n_fs() == 0")],
                             "TypeError": [("nothing-touched", "n_fs() == 0")],
                             "OSError": [("nothing-touched", "n_fs() == 0")]},
-             note=CWD_NOTE + "; DEST0 abbreviates the announced destination computed in the pre-state"),
+             note=CWD_NOTE),
     Contract(f"{RECV}:Receiver._remove_existing", props=[PROP], params={"path": "str"}, self_fields=SELF, pre_hook=bind_fs,
+             modifies=FS_FIELDS,
              raises_exactly={"TransferRejectedError": "path in self._fs.isdir"},
              raises={"OSError": "path in self._fs.isfile"},
-             ensures=[("removes-exactly-that-path-iff-it-is-a-file",
-                       "ite(path in old(self._fs.isfile), fs_ops() == ['remove'] and fs_arg('remove', 0, 0) == path, n_fs() == 0)"),
-                      ("ghost-exists-file-gone", "implies(path in old(self._fs.isfile), "
+             ensures=[("ghost-exists-file-gone", "imp(path in old(self._fs.isfile), "
                                                  "self._fs.exists == set_without(old(self._fs.exists), path))"),
-                      ("ghost-exists-otherwise-unchanged", "implies(not (path in old(self._fs.isfile)), "
+                      ("ghost-exists-otherwise-unchanged", "imp(not (path in old(self._fs.isfile)), "
                                                            "self._fs.exists == old(self._fs.exists))"),
                       ("directories-untouched", "self._fs.isdir == old(self._fs.isdir)")],
+             internal_ensures=[
+                 ("removes-exactly-that-path-iff-it-is-a-file",
+                  "ite(path in old(self._fs.isfile), fs_ops() == ['remove'] and fs_arg('remove', 0, 0) == path, n_fs() == 0)")],
              ensures_raise={"TransferRejectedError": [("a-directory-is-never-removed", "n_fs() == 0")],
                             "OSError": [("nothing-touched", "n_fs() == 0")]}),
     Contract(f"{RECV}:Receiver._ask_permission", props=[PROP], params={}, self_fields=SELF_D, pre_hook=bind_fs,
+             modifies=FS_FIELDS,
              raises={"TransferRejectedError": "not self.args.accept_file", "OSError": "not self.args.accept_file",
                      "EOFError": "not self.args.accept_file"},
-             ensures=[("removes-at-most-the-destination-file-after-consent",
-                       "n_fs() == n_fs('remove') and n_fs('remove') <= 1 and implies(n_fs('remove') == 1, "
-                       "fs_arg('remove', 0, 0) == self.abs_destname and (self.abs_destname in old(self._fs.isfile)) "
-                       "and not self.args.accept_file)"),
-                      ("asked--destination-is-no-directory",
-                       "implies(not self.args.accept_file, not (self.abs_destname in old(self._fs.isdir)) and "
+             ensures=[("asked--destination-is-no-directory",
+                       "imp(not self.args.accept_file, not (self.abs_destname in old(self._fs.isdir)) and "
                        "not (self.abs_destname in self._fs.isfile))"),
                       ("directories-untouched", "self._fs.isdir == old(self._fs.isdir)")],
+             internal_ensures=[
+                 ("removes-at-most-the-destination-file-after-consent",
+                  "n_fs() == n_fs('remove') and n_fs('remove') <= 1 and implies(n_fs('remove') == 1, "
+                  "fs_arg('remove', 0, 0) == self.abs_destname and (self.abs_destname in old(self._fs.isfile)) "
+                  "and not self.args.accept_file)")],
              ensures_raise={e: [("nothing-touched", "n_fs() == 0")] for e in ("TransferRejectedError", "OSError", "EOFError")},
-             loops={0: {"header": "True and (not self.args.accept_file)",
-                        "modifies": [("self", "_fs", "exists"), ("self", "_fs", "isfile"), ("self", "_fs", "isdir")],
+             loops={0: {"header": "True and (not self.args.accept_file)", "modifies": FS_MOD,
                         "invariant": ["self._fs.exists == at_entry(self._fs.exists)", "self._fs.isfile == at_entry(self._fs.isfile)",
-                                      "self._fs.isdir == at_entry(self._fs.isdir)", "n_fs() == 0"]}},
+                                      "self._fs.isdir == at_entry(self._fs.isdir)"]}},
              note="no iteration of the prompt loop completes (break or raise), so the invariant is the entry state"),
+
+    # ---------------------------------------------------------------- D4: what gets opened / renamed / extracted
+    Contract(f"{RECV}:Receiver._handle_file", props=[PROP], params={"them_d": "json"}, self_fields=SELF, requires=CWD_OK,
+             pre_hook=bind_fs, raises={e: None for e in HF_EXC}, returns="obj[File]",
+             modifies=["abs_destname", "xfersize"] + FS_FIELDS,
+             ensures=dest_clauses("self.abs_destname", FNAME, strict=True) + [
+                 ("the-returned-file-is-destination-dot-tmp", "result.name == self.abs_destname + '.tmp'"),
+                 ("an-existing-directory-is-never-the-destination", "not (self.abs_destname in old(self._fs.isdir))"),
+                 ("directories-untouched", "self._fs.isdir == old(self._fs.isdir)")],
+             internal_ensures=[
+                 ("opens-exactly-destination-dot-tmp-for-writing",
+                  "n_fs('open') == 1 and fs_arg('open', 0, 0) == self.abs_destname + '.tmp' and fs_arg('open', 0, 1) == 'wb' "
+                  "and result.name == fs_arg('open', 0, 0)"),
+                 remove_rule("self.abs_destname"),
+                 ("nothing-else-touched", "fs_ops() == ['open'] or fs_ops() == ['remove', 'open']"),
+                 ("confined", "fs_confined(self.abs_destname)")],
+             ensures_raise=on_any_raise(HF_EXC, [raise_rule(FNAME)]),
+             note=CWD_NOTE + "; them_d is the peer's offer: any JSON value"),
+    Contract(f"{RECV}:Receiver._handle_directory", props=[PROP], params={"them_d": "json"}, self_fields=SELF, requires=CWD_OK,
+             pre_hook=bind_fs, raises={e: None for e in HD_EXC}, returns="obj[SpooledTemporaryFile]",
+             modifies=["abs_destname", "xfersize"] + FS_FIELDS,
+             ensures=dest_clauses("self.abs_destname", DNAME, strict=True) + [
+                 ("an-existing-directory-is-never-the-destination", "not (self.abs_destname in old(self._fs.isdir))"),
+                 ("destination-is-absolute-normalised-without-trailing-separator", DEST_NORMAL),
+                 ("directories-untouched", "self._fs.isdir == old(self._fs.isdir)")],
+             internal_ensures=[
+                 remove_rule("self.abs_destname"),
+                 ("nothing-else-touched-nothing-opened", "fs_ops() == [] or fs_ops() == ['remove']")],
+             ensures_raise=on_any_raise(HD_EXC, [raise_rule(DNAME)]),
+             note=CWD_NOTE),
+    Contract(f"{RECV}:Receiver._write_file", props=[PROP], params={"f": "obj[File]"}, self_fields=SELF_D, pre_hook=bind_fs,
+             modifies=FS_FIELDS, raises={"OSError": None},
+             effects=[("close", []), ("rename", ["f.name", "self.abs_destname"])],
+             internal_ensures=[("one-rename-of-the-open-file-onto-the-destination",
+                                "fs_ops() == ['rename'] and fs_arg('rename', 0, 0) == f.name and fs_arg('rename', 0, 1) == self.abs_destname")],
+             ensures_raise={"OSError": [("nothing-touched", "n_fs() == 0")]}),
+    Contract(f"{RECV}:Receiver._extract_file", props=[PROP],
+             params={"zf": "obj[ZipFile]", "info": "nt[ZipInfo]", "extract_dir": "str"}, self_fields=SELF, pre_hook=bind_fs,
+             modifies=FS_FIELDS,
+             requires=["extract_dir.startswith('/') and not extract_dir.endswith('/')"],
+             raises_exactly={"ValueError": f"not {TARGET}.startswith(extract_dir + '/')"}, raises={"OSError": None},
+             ensures=[("extract-reached-only-for-a-target-strictly-below-extract-dir", f"below({TARGET}, extract_dir)")],
+             internal_ensures=[
+                 ("extract-into-extract-dir-then-chmod-of-that-target",
+                  "fs_ops() == ['extract', 'chmod'] and fs_arg('extract', 0, 0) == info.filename and "
+                  f"fs_arg('extract', 0, 1) == extract_dir and fs_arg('chmod', 0, 0) == {TARGET}")],
+             ensures_raise={"ValueError": [("nothing-touched", "n_fs() == 0")],
+                            "OSError": [("confined", "fs_confined(extract_dir) and fs_only('extract')")]},
+             note="the CVE-0.24 shape: the separator is part of the prefix test"),
+    Contract(f"{RECV}:Receiver._write_directory", props=[PROP], params={"f": "obj[SpooledTemporaryFile]"}, self_fields=SELF_D,
+             pre_hook=bind_fs, requires=[DEST_NORMAL], modifies=FS_FIELDS,
+             raises={"ValueError": None, "OSError": None, "BadZipFile": None},
+             internal_ensures=[("every-member-lands-strictly-below-the-destination",
+                                "fs_confined(self.abs_destname) and fs_only('extract', 'chmod')")],
+             ensures_raise=on_any_raise(["ValueError", "OSError", "BadZipFile"],
+                                        [("confined", "fs_confined(self.abs_destname) and fs_only('extract', 'chmod')")]),
+             loops={0: {"header": "for info in zf.infolist()", "modifies": FS_MOD,
+                        "invariant": ["fs_confined(self.abs_destname)", "iter_fs_only('extract', 'chmod')"]}},
+             note="the invariant is over the ghost event trace: events before the loop at entry, plus those of the iteration "
+                  "when it is re-established; the exit path carries the events before and after the loop"),
+    # ---------------------------------------------------------------- composition (callees by contract only)
+    Contract("lemma:receive_file", props=[PROP], source_module=RECV, params={"r": "obj[Receiver]", "them_d": "json"},
+             source_text="""
+             def receive_file(r, them_d):
+                 f = r._handle_file(them_d)
+                 r._write_file(f)
+                 return f
+             """,
+             pre_hook=bind_fs, requires=[for_r(x) for x in CWD_OK], raises={e: None for e in HF_EXC},
+             ensures=[for_r(x) for x in dest_clauses("self.abs_destname", FNAME, strict=True)] + [
+                 ("the-temporary-file-is-what-gets-renamed-onto-the-announced-destination",
+                  "bcalls('rename') == 1 and bcall_arg('rename', 0, 0) == r.abs_destname + '.tmp' and "
+                  "bcall_arg('rename', 0, 1) == r.abs_destname")],
+             ensures_raise=on_any_raise(HF_EXC, [("no-final-file", "bcalls('rename') == 0")]),
+             note="over the contracts of _handle_file and _write_file: the file that is opened is dest.tmp and that is the "
+                  "one renamed onto dest; on any failure no rename happened"),
+    Contract("lemma:receive_directory", props=[PROP], source_module=RECV, params={"r": "obj[Receiver]", "them_d": "json"},
+             source_text="""
+             def receive_directory(r, them_d):
+                 f = r._handle_directory(them_d)
+                 r._write_directory(f)
+             """,
+             pre_hook=bind_fs, requires=[for_r(x) for x in CWD_OK],
+             raises={e: None for e in HD_EXC + ["BadZipFile"]},
+             ensures=[for_r(x) for x in dest_clauses("self.abs_destname", DNAME, strict=True)],
+             note="over the contracts of _handle_directory and _write_directory: what the first establishes about the "
+                  "destination (absolute, normalised, no trailing separator) is what the second requires for confinement"),
 ]
 
-
-def _expand_dest0(c):
-    """DEST0: the announced destination in the pre-state, spelled out (used in raise conditions only)"""
-    dest0 = (f"ite(self.args.output_file, ite({OUT} in self._fs.isdir, abspath(pjoin(self.args.cwd, self.args.output_file, {B})), {OUT}), "
-             f"abspath(pjoin(self.args.cwd, {B})))")
-    for d in (c.raises, c.raises_exactly):
-        for k, v in list(d.items()):
-            if isinstance(v, str):
-                d[k] = v.replace("DEST0", dest0)
+HELPERS = {f"{RECV}:Receiver._decide_destname", f"{RECV}:Receiver._remove_existing", f"{RECV}:Receiver._ask_permission",
+           f"{RECV}:Receiver._extract_file"}
 
 
-for _c in CONTRACTS:
-    _expand_dest0(_c)
-
-
-def regf(exclude=(), inline=()):
+def regf(modular=False):
     reg = make_registry()
     install_trace_funcs(reg)
     register_classes(reg, ["wormhole/errors.py", RECV])
@@ -554,19 +681,24 @@ def regf(exclude=(), inline=()):
                                 "stderr": "obj[Stream]", "stdout": "obj[Stream]", "timing": "obj[Timing]"}
     reg.class_fields["Receiver"] = {"args": "obj[Args]", "_fs": "obj[GhostFS]", "abs_destname": "str", "xfersize": "json"}
     reg.class_fields["File"] = {"name": "str"}
+    reg.class_fields["ZipFile"] = {"_infos": "seq[nt[ZipInfo]]"}
     for c in CONTRACTS:
-        if c.target in exclude:
-            continue
-        # inside this property every Receiver helper is *inlined* at its call sites (its events must be
-        # seen by the caller's clauses); it is still verified on its own against its own contract
+        # the small helpers are *inlined* at their call sites inside Receiver (their filesystem events must be seen
+        # by the caller's clauses); each is still verified on its own against its own contract.  The lemmas use
+        # _handle_file/_handle_directory/_write_file/_write_directory by contract only.
         c2 = copy.copy(c)
-        c2.inline = True
+        c2.inline = c.target in HELPERS or not modular
         reg.contracts[c.target] = c2
     return reg
 
 
+def regf_modular():
+    return regf(modular=True)
+
+
 def tasks():
-    return [ContractTask(c, regf) for c in CONTRACTS]
+    out = [ContractTask(c, regf_modular if c.target.startswith("lemma:") else regf) for c in CONTRACTS]
+    return out
 
 
 TRUSTED = []
